@@ -1,6 +1,7 @@
 package gen
 
 import (
+	crand "crypto/rand"
 	"errors"
 	"fmt"
 	"io"
@@ -129,4 +130,17 @@ func Reader(t *rapid.T, n int, label string) *ScriptedReader {
 		chunks = rapid.SliceOfN(rapid.IntRange(1, 33), 1, 6).Draw(t, label+"_chunks")
 	}
 	return &ScriptedReader{Data: data, Chunks: chunks, FailAfter: -1, Desc: fmt.Sprintf("%s/%s", kind, ck)}
+}
+
+// WithProcessEntropy runs f while the process-wide entropy source
+// (crypto/rand.Reader, what the library falls back to when the caller passes a
+// nil reader) is replaced by rd.  The source a nil argument selects is one
+// more reader slot: the same scripted contents, short reads and failures apply
+// to it.  Not safe for concurrent use (the harness' properties run one at a
+// time in a process).
+func WithProcessEntropy(rd io.Reader, f func()) {
+	old := crand.Reader
+	crand.Reader = rd
+	defer func() { crand.Reader = old }()
+	f()
 }
